@@ -2379,12 +2379,23 @@ class Parameters:
             # watchers of such a method are removed, so all of them are set
             # up again, also those routed through other attributes.
             affected = [d for d in dynamic if attribute is None or d.spec.split(".")[0] == attribute]
-            if init:
-                constant_grouped = defaultdict(list)
+            if not (init or affected):
+                continue
+
+            # Resolve dynamic dependencies one-by-one to be able to trace their watchers
+            grouped = defaultdict(list)
+            for ddep in dynamic:
+                for dep in _resolve_mcs_deps(obj, [], [ddep]):
+                    grouped[(id(dep.inst), id(dep.cls), dep.what)].append((ddep, dep))
+            # A parameter the method depends on directly and that a dynamic
+            # dependency is routed through as well ('a' and 'a.x') is served
+            # by the dynamic watcher alone: one watcher, one call
+            constant_grouped = defaultdict(list)
+            if dynamic or init:
                 for dep in _resolve_mcs_deps(obj, constant, []):
                     constant_grouped[(id(dep.inst), id(dep.cls), dep.what)].append((None, dep))
-                for group in constant_grouped.values():
-                    self_._watch_group(obj, method, queued, group)
+
+            if init:
                 m = getattr(self_.self, method)
                 if on_init and m not in init_methods:
                     init_methods.append(m)
@@ -2402,16 +2413,21 @@ class Parameters:
                     if any(w == q for q in waiting):
                         wobj.param._state_watchers = [q for q in waiting if not (w == q)]
                         requeue.append(wobj)
-            else:
-                continue
 
-            # Resolve dynamic dependencies one-by-one to be able to trace their watchers
-            grouped = defaultdict(list)
-            for ddep in dynamic:
-                for dep in _resolve_mcs_deps(obj, [], [ddep]):
-                    grouped[(id(dep.inst), id(dep.cls), dep.what)].append((ddep, dep))
+            for key, group in constant_grouped.items():
+                if key in grouped:
+                    continue
+                watcher = self_._watch_group(obj, method, queued, group)
+                if dynamic:
+                    # Which parameters the dynamic watchers serve changes
+                    # with the sub-objects: set up again along with them
+                    obj._param__private.dynamic_watchers[method].append(watcher)
+                    wobj = watcher.cls if watcher.inst is None else watcher.inst
+                    if any(wobj is o for o in requeue):
+                        wobj.param._state_watchers.append(watcher)
 
-            for group in grouped.values():
+            for key, group in grouped.items():
+                group = group + constant_grouped.get(key, [])
                 watcher = self_._watch_group(obj, method, queued, group, attribute)
                 obj._param__private.dynamic_watchers[method].append(watcher)
                 wobj = watcher.cls if watcher.inst is None else watcher.inst
@@ -2490,6 +2506,10 @@ class Parameters:
             # them, unless it is itself one of the dependencies
             subparams, callback, what = {}, None, param_dep.what
             for ddep, pdep in group:
+                if ddep is None:
+                    # depended on directly as well: always counts
+                    subparams[pdep.name] = None
+                    continue
                 dsubparams, dcallback, dwhat = self_._resolve_dynamic_deps(
                     obj, ddep, pdep, ddep.spec.split(".")[0])
                 callback = callback or dcallback
